@@ -1033,21 +1033,20 @@ def schwarz_parameters(A, subdomain=None, subdomain_ptr=None,
     A.schwarz_parameters[3] is inv_subblock_ptr
 
     """
+    # Inverses supplied by the caller are used as they are and are not cached
+    given_inv = inv_subblock is not None and inv_subblock_ptr is not None
+
     # Check if A has a pre-existing set of Schwarz parameters
-    if hasattr(A, 'schwarz_parameters'):
+    if hasattr(A, 'schwarz_parameters') and not given_inv:
         cached = A.schwarz_parameters
         # check that the existing parameters correspond to the same
-        # subdomains (the default subdomains are the rows of A) ...
+        # subdomains (the default subdomains are the rows of A)
         if subdomain is not None and subdomain_ptr is not None:
             same = np.array_equal(cached[0], subdomain) and \
                 np.array_equal(cached[1], subdomain_ptr)
         else:
             same = np.array_equal(cached[0], A.indices) and \
                 np.array_equal(cached[1], A.indptr)
-        # ... and, if the caller supplies them, to the same inverses
-        if same and inv_subblock is not None and inv_subblock_ptr is not None:
-            same = np.array_equal(cached[2], inv_subblock) and \
-                np.array_equal(cached[3], inv_subblock_ptr)
         if same:
             return cached
 
@@ -1085,6 +1084,9 @@ def schwarz_parameters(A, subdomain=None, subdomain_ptr=None,
                                   rhs, cond=cond, overwrite_a=True,
                                   overwrite_b=True)
             inv_subblock[j0:j1] = np.ravel(gelssoutput[1])
+
+    if given_inv:
+        return (subdomain, subdomain_ptr, inv_subblock, inv_subblock_ptr)
 
     A.schwarz_parameters = (subdomain, subdomain_ptr, inv_subblock,
                             inv_subblock_ptr)
